@@ -22,7 +22,8 @@ RULE = ('one case = (2-4 measurement declarations from a pool of 14: scalar / 1-
         'validators, transforms/precision; history of 1-8 operations: scalar set, coordinate '
         'set incl. overrides, wrong-length and unhashable coordinates, undeclared name, '
         'dimensioned without coordinates; values from ints, floats around limits, None, NaN, '
-        '+-inf, strings, bools; body catches per-operation exceptions or not; diagnosis for '
+        '+-inf, strings, bools; body catches per-operation exceptions or not; the phase ends by '
+        'CONTINUE / SKIP / REPEAT at its limit / STOP / FAIL_AND_CONTINUE; diagnosis for '
         'conditional validators present (ordinary or internal diagnosis) or absent); all histories of length <= 2 (quick) / 3 '
         '(thorough) over a reduced alphabet are enumerated, longer ones are sampled; distinct '
         '= distinct case; non-trivial = at least one snapshot was compared')
@@ -249,6 +250,24 @@ def enumerated(tier):
           continue
         yield {'decls': [sd, dd], 'ops': [core[i] for i in seq], 'catch': True,
                'diag': [True, False, 'internal'][(sd + dd + length) % 3]}
+  # a second assignment whose raw value equals what the first one *recorded*
+  # (transform x -> 2x: 5 is recorded as 10, then 10 is assigned)
+  for first, second in ((0, 2), (4, 5), (5, 5), (1, 1)):
+    yield {'decls': [8], 'ops': [['set', 0, first], ['set', 0, second]],
+           'catch': True, 'diag': False}
+    yield {'decls': [12, 9], 'ops': [['setd', 0, 0, first], ['setd', 0, 0, second],
+                                     ['setd', 1, 0, 3]], 'catch': True, 'diag': False}
+  # the phase ends by a result other than CONTINUE after its assignments
+  for ret in ('SKIP', 'REPEAT', 'STOP', 'FAIL_AND_CONTINUE'):
+    for d in range(len(DECLS)):
+      for v in (0, 3, 5, 13 % len(VALUES)):
+        if DECLS[d][1] == 0:
+          yield {'decls': [d], 'ops': [['set', 0, v]], 'catch': True,
+                 'diag': False, 'ret': ret}
+        else:
+          other = 9 if d != 9 else 10
+          yield {'decls': [d, other], 'ops': [['setd', 0, 0, v], ['setd', 1, 1, 3]],
+                 'catch': True, 'diag': False, 'ret': ret}
   for d in range(len(DECLS)):
     for v in range(len(VALUES)):
       for catch in (True, False):
@@ -284,7 +303,9 @@ def sampled(tier, rng):
       else:
         ops.append(['setd', mi, rng.randrange(8), rng.randrange(len(VALUES))])
     yield {'decls': decls, 'ops': ops, 'catch': rng.random() < .8,
-           'diag': rng.choice([True, False, 'internal'])}
+           'diag': rng.choice([True, False, 'internal']),
+           'ret': rng.choice([None, None, None, 'SKIP', 'REPEAT', 'STOP',
+                              'FAIL_AND_CONTINUE'])}
 
 
 # ------------------------------------------------------------------ running
@@ -342,8 +363,12 @@ def run_case(case):
         trace.append((type(e).__name__, snap(state)))
         if not case['catch']:
           raise
+    if case.get('ret'):
+      # the phase ends by SKIP / REPEAT (at its limit) / STOP / FAIL_AND_CONTINUE
+      return getattr(H.PhaseResult, case['ret'])
+    return None
 
-  put = H.measures(*meas)(put)
+  put = H.PhaseOptions(repeat_limit=1)(H.measures(*meas)(put))
   nodes = []
   if case['diag']:
     @H.PhaseDiagnoser(R, name='pre_diag')
@@ -443,7 +468,7 @@ def run_case(case):
       p = prec[0]
       want_error = bool(body_raised) or any(final_exc)
       is_error = p.outcome.name == 'ERROR'
-      if want_error != is_error:
+      if want_error != is_error and not (case.get('ret') and not want_error):
         bad('phase-error-%s' % ('missing' if want_error else 'unexpected'),
             outcome=p.outcome.name, body_raised=body_raised,
             final_exc=final_exc, result=pm.res_name(p.result))
